@@ -259,7 +259,7 @@ func (e *Env) load(st *State, p *Ptr) Value {
 		if psort, _, sels, ok := e.packed(p.Root); ok {
 			name, srt := e.locName(p, Leaf{})
 			arr := e.heapGet(st, name, srt)
-			packedElem = e.maybeName(mkSelect(mkSelect(arr, p.Ref), p.Idx), psort)
+			packedElem = e.maybeName(mkSelect(e.selRow(arr, p.Ref), p.Idx), psort)
 			psels = sels
 			poff = e.leafOffset(p.Root, p.Path)
 			if e.quantDepth == 0 {
@@ -276,7 +276,7 @@ func (e *Env) load(st *State, p *Ptr) Value {
 			if p.Kind == "obj" {
 				ts[i] = mkSelect(arr, p.Ref)
 			} else {
-				ts[i] = mkSelect(mkSelect(arr, p.Ref), p.Idx)
+				ts[i] = mkSelect(e.selRow(arr, p.Ref), p.Idx)
 			}
 			if e.quantDepth == 0 {
 				e.entryClosed(name, srt, l)
@@ -725,4 +725,25 @@ func (e *Env) havocAllBut(st *State, preserved []types.Type) {
 	if e.writeLog != nil {
 		e.writeLog["*callee-modifies*"] = append(e.writeLog["*callee-modifies*"], "unknown code")
 	}
+}
+
+// selRow reads row `ref` of a two-level element array. When the array is syntactically
+// store(a, ref, row) the row itself is returned, so that facts (and quantifier patterns) about
+// the row apply to the reads directly; the unsimplified term is kept alive by a (tautological)
+// equation, because other patterns match on it.
+func (e *Env) selRow(arr, ref string) string {
+	if strings.HasPrefix(arr, "(store ") && e.quantDepth == 0 {
+		if a := topArgs(arr); len(a) == 4 && a[2] == ref {
+			key := "selrow:" + arr
+			if !e.asserted[key] {
+				if e.asserted == nil {
+					e.asserted = map[string]bool{}
+				}
+				e.asserted[key] = true
+				e.sess.Cmd("(assert (= " + sx("select", arr, ref) + " " + a[3] + "))")
+			}
+			return a[3]
+		}
+	}
+	return mkSelect(arr, ref)
 }
